@@ -33,7 +33,7 @@ type bsInput struct {
 
 type bsFlags struct {
 	table, row, col, ignore, filter string
-	alpha, confidence                float64
+	alpha, confidence               float64
 }
 
 func (f bsFlags) args() []string {
